@@ -24,7 +24,10 @@ RULE_ADDED = (
               'varint boundaries; a third of the shards under python -O '
               ' '
               'Round 8: scripts whose final operation (opcode or one-byte push) also occurs ear'
-              'lier in the script. ')
+              'lier in the script. '
+              ' '
+              'Round 10: relays of transactions whose cleared form is exactly 65528..131081 byt'
+              'es long. ')
 RULE = RULE + " " + RULE_ADDED.strip()
 ASSUMPTIONS = [
     "comm/bitcoin.py is exercised composed with the bitcoin.core shim in pv/shims "
@@ -37,6 +40,9 @@ FLOORS = {"quick": {"evaluations": 1500, "oracle_checks": 1500, "malformed_cases
           "thorough": {"evaluations": 400000, "oracle_checks": 300000, "malformed_cases": 50000,
                        "stack_relays": 3000, "pairs": 150000,
                        "varint_edge_cases": 20000}}
+
+
+SIZE_MARKS = [0xffff - 7, 0xffff, 0x10000, 0x10000 + 100, 0x20000, 100000]
 
 
 def shards(tier, seed):
@@ -227,8 +233,19 @@ def run_shard(spec, acc):
                          "tx": raw.hex()[:300], "repetition": rep},
                         {"kind": "stackmal", "tx": raw.hex()})
                     break
-        for i in range(spec["n_stack"]):
+        sized = [btctx.gen_sized_tx(rng, unsigned_len=m + d)
+                 for m in rng.sample(SIZE_MARKS, 2) for d in rng.sample([-8, -7, -1, 0, 1, 9], 2)]
+        for i in range(spec["n_stack"] + len(sized)):
             tx = btctx.gen_tx(rng, max_in=3, max_out=3)
+            if i >= spec["n_stack"]:
+                # a transaction whose cleared form is exactly so many bytes long (around
+                # 2^16 and 2^17: no document bounds a transaction's size)
+                tx = sized[i - spec["n_stack"]]
+                if tx is None:
+                    continue
+                acc.count("stack_relays_of_transactions_of_a_chosen_size")
+                acc.counters["max_relayed_unsigned_tx_bytes"] = max(
+                    acc.counters.get("max_relayed_unsigned_tx_bytes", 0), tx["unsigned_len"])
             if rng.random() < 0.3:
                 # a sign that fails half-way (error status or time-out while the transaction
                 # is being handed over) right before: nothing of it may reach the next one
